@@ -80,6 +80,9 @@ uint64_t my_spin_points();
 // while set, the calling fiber must not block in a futex/semaphore wait (try_* operations)
 void set_noblock(bool on);
 
+// worker allotment decided by the market (hook H7): fn(soft_limit, mandatory_requests, total_demand, n, level[], min[], max[], allotted[])
+void set_allotment_observer(std::function<void(int, int, int, int, const int*, const int*, const int*, const int*)> fn);
+
 // ---- verdicts ---------------------------------------------------------------------------------
 [[noreturn]] void fail(const char* cls, const char* fmt, ...) __attribute__((format(printf, 2, 3)));
 #define SIM_CHECK(cond, cls, ...) do { if (!(cond)) ::sim::fail(cls, __VA_ARGS__); } while (0)
